@@ -10,6 +10,7 @@ import (
 	"fmt"
 	"io"
 	"strings"
+	"sync"
 	"testing"
 
 	"github.com/elliotchance/gedcom/v39"
@@ -39,6 +40,9 @@ type history struct {
 	// unrelated stream (it has read two lines and waits for more). What happens to another
 	// document in another goroutine is not part of this document's history.
 	Background bool `json:"background,omitempty"`
+	// Parallel: after every step the views are read by several goroutines at the same time
+	// (the first readers after an edit); each of them must see what a single reader sees.
+	Parallel bool `json:"parallel,omitempty"`
 }
 
 var editKinds = []string{"AddNode", "DeleteNode", "SetNodes", "AddIndividual", "AddFamily", "AddFamilyWithHusbandAndWife",
@@ -585,13 +589,50 @@ func check(h history) (fl *harness.Failure, res result) {
 	// fresh copy: decoding modifies process-wide cache state (every AddNode resets
 	// the children-by-tag cache), so doing it first would hide stale views.
 	compare := func(step int, what string) *harness.Failure {
-		live := views(doc, pointers, tags, "")
+		var live []string
+		var others [][]string
+		if h.Parallel {
+			const readers = 6
+			all := make([][]string, readers)
+			start := make(chan struct{})
+			var wg sync.WaitGroup
+			for k := 0; k < readers; k++ {
+				wg.Add(1)
+				go func(k int) {
+					defer wg.Done()
+					defer func() { _ = recover() }()
+					<-start
+					// (every reader starts somewhere else: by pointer, with the families, ...)
+					_ = views(doc, pointers, tags, []string{"ReadPointers", "ReadFamilies", "ReadIndividuals", "ReadPointers", "ReadFamilies", "ReadTags"}[k])
+					all[k] = views(doc, pointers, tags, "")
+				}(k)
+			}
+			close(start)
+			wg.Wait()
+			live, others = all[0], all[1:]
+		} else {
+			live = views(doc, pointers, tags, "")
+		}
 		cur := doc.String()
 		fresh, err := gedcom.NewDocumentFromString(cur)
 		if err != nil {
 			return harness.Failf("text-not-decodable", "after step %d (%s) the document's text is rejected by the decoder: %v\n%s", step, what, err, cur)
 		}
 		want := views(fresh, pointers, tags, "")
+		for k, o := range others {
+			if len(o) != len(want) {
+				return harness.Failf("parallel-readers:view-count", "after step %d (%s): one of %d readers at the same time gets %d views, a fresh decode has %d", step, what, len(others)+1, len(o), len(want))
+			}
+			for i := range o {
+				if o[i] != want[i] {
+					vk := o[i]
+					if j := strings.Index(vk, " = "); j > 0 {
+						vk = vk[:j]
+					}
+					return harness.Failf("parallel-readers:stale:"+viewKind(vk)+":after:"+lastEdit, "after step %d (%s; last edit %s) reader %d of %d that read the views at the same time sees something else than a fresh decode of the current text:\n  live : %s\n  fresh: %s\ncurrent text:\n%s", step, what, lastEdit, k+2, len(others)+1, o[i], want[i], cur)
+				}
+			}
+		}
 		if len(live) != len(want) {
 			return harness.Failf("view-count", "after step %d (%s): %d views on the live document, %d on a fresh decode", step, what, len(live), len(want))
 		}
@@ -692,7 +733,7 @@ func genOp(t *rapid.T) op {
 
 func TestCheckHistories(t *testing.T) {
 	s := harness.NewSub("random-histories",
-		"operation lists of 1..25 steps over a random referentially closed family graph (<= 5 people, <= 3 families, decoded from text): 21 edit operations (AddNode/DeleteNode/SetNodes on arbitrary nodes, AddIndividual, AddFamily, AddFamilyWithHusbandAndWife, SetHusband/SetWife incl. nil, SetHusbandPointer/SetWifePointer, AddChild, Document.DeleteNode/AddNode, AddName/Add*Date/SetSex), 5 read operations that warm caches, 10 read-only operations (Warnings, String, Compare, SurroundingSimilarity, Similarity, CompareNodes+Sort, DeepCopy and every filter of the library - directly and through FilterFlags - into another document, in-memory publish, queries); a third of the start documents hold somebody with the same NAME twice; during a fifth of the histories another goroutine is in the middle of decoding an unrelated stream; after every edit and read-only step all views (NodesWithTag for every node x 11 tags, Individuals, Families, NodeByPointer for every pointer ever seen, per individual Names/Sex/Births/Baptisms/Deaths/Burials/AllEvents/UniqueIdentifiers/Families/Spouses/Parents/Children/String, per family Husband/Wife/their individuals/Children/the individuals and parents of the children/String) are compared with a fresh decode of Document.String(); read-only steps must leave the text unchanged; non-trivial = an edit that follows a read of the views")
+		"operation lists of 1..25 steps (for a quarter of them the views are read after every step by 6 goroutines at the same time, and every reader must see what the fresh decode shows) over a random referentially closed family graph (<= 5 people, <= 3 families, decoded from text): 21 edit operations (AddNode/DeleteNode/SetNodes on arbitrary nodes, AddIndividual, AddFamily, AddFamilyWithHusbandAndWife, SetHusband/SetWife incl. nil, SetHusbandPointer/SetWifePointer, AddChild, Document.DeleteNode/AddNode, AddName/Add*Date/SetSex), 5 read operations that warm caches, 10 read-only operations (Warnings, String, Compare, SurroundingSimilarity, Similarity, CompareNodes+Sort, DeepCopy and every filter of the library - directly and through FilterFlags - into another document, in-memory publish, queries); a third of the start documents hold somebody with the same NAME twice; during a fifth of the histories another goroutine is in the middle of decoding an unrelated stream; after every edit and read-only step all views (NodesWithTag for every node x 11 tags, Individuals, Families, NodeByPointer for every pointer ever seen, per individual Names/Sex/Births/Baptisms/Deaths/Burials/AllEvents/UniqueIdentifiers/Families/Spouses/Parents/Children/String, per family Husband/Wife/their individuals/Children/the individuals and parents of the children/String) are compared with a fresh decode of Document.String(); read-only steps must leave the text unchanged; non-trivial = an edit that follows a read of the views")
 	s.Rapid(t, harness.Share(harness.Pick(12000, 300000)), 130, func(rt *rapid.T) {
 		h := history{Start: gen.Graph(gen.GraphOpts{MaxPeople: 5, MaxFamilies: 3, UIDs: true, Sources: true}).Draw(rt, "start")}
 		if len(h.Start.People) > 0 && rapid.IntRange(0, 2).Draw(rt, "duplicateName") == 0 {
@@ -707,8 +748,12 @@ func TestCheckHistories(t *testing.T) {
 			h.Ops = append(h.Ops, genOp(rt))
 		}
 		h.Background = rapid.IntRange(0, 4).Draw(rt, "background") == 2
+		h.Parallel = rapid.IntRange(0, 3).Draw(rt, "parallel") == 2
 		s.Crumb(h) // read-only operations start goroutines inside the library: a panic there kills the process
 		fl, res := check(h)
+		if h.Parallel {
+			res.classes = append(res.classes, "parallel-readers-after-every-step")
+		}
 		s.Eval(harness.JSON(h), res.editAfterRead, dedupe(res.classes)...)
 		if res.editAfterRead {
 			s.MaybeSample(h)
